@@ -104,7 +104,7 @@ PROPS['C03'] = dict(tools=['drive', 'extract', 'wire-race'], modules=['Hagall.Pr
                                     pred=lambda d: d.get('kind') != 'delivery' or d.get('conn') != d.get('actor')
                                     or bool(d['outs'] & {'sessionState', 'vikjaState', 'odalState'})))
 
-PROPS['C01'] = dict(modules=['Hagall.Props.C01', 'Hagall.Props.C01Conc'], profiles=['mixed', 'comp', 'module', 'pose', 'join'], n=(300, 5000), focus={'join', 'entityAdd', 'compAdd', 'action', 'assetAdd'},
+PROPS['C01'] = dict(modules=['Hagall.Props.C01', 'Hagall.Props.C01Conc', 'Hagall.Props.C01New'], profiles=['mixed', 'comp', 'module', 'pose', 'join'], n=(300, 5000), focus={'join', 'entityAdd', 'compAdd', 'action', 'assetAdd'},
                     extra=['conc_explore', 'wire_harness'], tools=['drive', 'extract', 'wire'],
                     gen_args=['-flags', '-'],
                     topics=slice_of(ALL_TOPICS + ['disconnect'], outs=RELAYS | {'sessionState', 'vikjaState', 'odalState', 'compAddBcast', 'compDeleteBcast', 'compUpdateBcast'}))
